@@ -272,7 +272,7 @@ var forgeryKinds = []string{
 	"A7-ds-no-keyusage", "A7-ds-no-digitalsignature", "A7-ds-unknown-critical",
 	"A7-time-ds-before", "A7-time-ds-after", "A7-time-csca-after", "A7-time-csca-before", "A7-country-mismatch", "A7-wrong-content-type", "A7-wrong-message-digest",
 	"A8-cardsec-econtent", "A8-cardsec-resigned-untrusted", "A8-cardsec-signedattrs", "A8-cardsec-foreign-signer",
-	"A9-ml-tampered", "A9-ml-wrong-root", "A9-ml-signer-unchained", "A9-ml-signer-no-ku", "A9-ml-byte",
+	"A9-ml-tampered", "A9-ml-wrong-root", "A9-ml-signer-unchained", "A9-ml-signer-no-ku", "A9-ml-byte", "A9-ml-own-anchor", "A9-ml-self-issued-signer",
 	"A10-sod-byte", "A10-cardsec-byte",
 }
 
@@ -651,7 +651,7 @@ func (PKIForgeryEngine) Run(prop string, ci any) *core.Outcome {
 		sp := w.CardSec.Spec
 		sp.Signer, sp.SignerCert, sp.Scheme, sp.DigestAlg = attackerKey, fDS, attackerScheme, "SHA256"
 		mfF[chip.FidCardSecurity] = pki.BuildSignedData(sp, rng).DER
-	case "A9-ml-tampered", "A9-ml-wrong-root", "A9-ml-signer-unchained", "A9-ml-signer-no-ku", "A9-ml-byte":
+	case "A9-ml-tampered", "A9-ml-wrong-root", "A9-ml-signer-unchained", "A9-ml-signer-no-ku", "A9-ml-byte", "A9-ml-own-anchor", "A9-ml-self-issued-signer":
 		return runMasterList(out, c, w, rng, log)
 	case "A10-sod-byte", "A10-cardsec-byte":
 		var blob []byte
@@ -798,6 +798,32 @@ func runMasterList(out *core.Outcome, c ForgeryCase, w *world.World, rng *core.R
 		k := pki.NewECKey(12, rng, false)
 		fake := pki.Issue(pki.CertSpec{Serial: big.NewInt(5), Issuer: w.CSCAName, Subject: w.CSCAName, NotBefore: w.CSCANotBefore, NotAfter: w.CSCANotAfter, Key: k, SKI: cscaSKI, AKI: cscaSKI, IsCA: true, PathLen: 0, KeyUsageBits: []int{pki.KUKeyCertSign}}, k, sch, rng)
 		root = fake.DER
+	case "A9-ml-own-anchor", "A9-ml-self-issued-signer":
+		// a list forged by someone who is not under the supplied root and who ships their own trust anchor along:
+		// (a) an attacker CA (self-signed, cA, keyCertSign) issues the list signer and is itself listed and embedded;
+		// (b) the signer certificate is self-issued, CA-capable, carries digitalSignature and names itself as authority
+		ak := pki.NewECKey(12, rng, false)
+		an := pki.CountryName(w.Alpha2, "Sim Gov", "CSCA rollover")
+		aski := pki.SKIOf(ak)
+		var signerCert *pki.Cert
+		var signerKey *pki.Key
+		var extra []*pki.Cert
+		if c.Fault == "A9-ml-own-anchor" {
+			aCA := pki.Issue(pki.CertSpec{Serial: big.NewInt(77), Issuer: an, Subject: an, NotBefore: w.CSCANotBefore, NotAfter: w.CSCANotAfter, Key: ak, SKI: aski, AKI: aski, IsCA: true, PathLen: 0, KeyUsageBits: []int{pki.KUKeyCertSign, pki.KUCRLSign}}, ak, sch, rng)
+			signerKey = pki.NewECKey(12, rng, false)
+			signerCert = pki.Issue(pki.CertSpec{Serial: big.NewInt(78), Issuer: an, Subject: pki.CountryName(w.Alpha2, "Sim Gov", "Master List Signer"), NotBefore: w.DSNotBefore, NotAfter: w.DSNotAfter,
+				Key: signerKey, SKI: pki.SKIOf(signerKey), AKI: aski, OmitBC: true, PathLen: -1, KeyUsageBits: []int{pki.KUDigitalSignature}}, ak, sch, rng)
+			extra = []*pki.Cert{aCA}
+			listed = append(listed, aCA)
+		} else {
+			signerKey = ak
+			signerCert = pki.Issue(pki.CertSpec{Serial: big.NewInt(79), Issuer: an, Subject: an, NotBefore: w.CSCANotBefore, NotAfter: w.CSCANotAfter, Key: ak, SKI: aski, AKI: aski, IsCA: true, PathLen: 0,
+				KeyUsageBits: []int{pki.KUDigitalSignature, pki.KUKeyCertSign, pki.KUCRLSign}}, ak, sch, rng)
+			listed = append(listed, signerCert)
+		}
+		forged := pki.BuildSignedData(pki.SignedDataSpec{EContentType: pki.OidCscaMasterList, EContent: pki.MasterList(listed), DigestAlg: "SHA256", Scheme: sch, Signer: signerKey, SignerCert: signerCert,
+			ExtraCerts: extra, ExtraFirst: c.A%2 == 1, SIDForm: []string{"issuerSerial", "ski"}[c.B%2], SigningTime: &t}, rng)
+		blob = forged.DER
 	case "A9-ml-byte":
 		pos := c.A % len(blob)
 		v := byte(c.B)
